@@ -150,11 +150,18 @@ def run_grouped(case):
     pol = case['charges']
     labels = case.get('labels')
     out = {}
+    if case.get('share'):
+        # equal specs = the SAME Site object several times (the common `[site] * n` use)
+        for k in range(len(sites)):
+            for j in range(k):
+                if case['sites'][j] == case['sites'][k]:
+                    sites[k] = sites[j]
+                    break
     try:
         if case.get('common') and not all(s.leg.chinfo == sites[0].leg.chinfo and s.leg.chinfo.names == sites[0].leg.chinfo.names
                                           for s in sites):
             # GroupedSite(charges='same') requires a common ChargeInfo: documented way is set_common_charges beforehand
-            S.set_common_charges(sites, case['common'])
+            S.set_common_charges(_unique(sites), case['common'])
             ch.maps = [gen.site_to_doc_index(s, d) for s, d in zip(sites, ch.docs)]
             out['used_common'] = True
         gs = S.GroupedSite(sites, labels=labels, charges=pol)
@@ -175,6 +182,12 @@ def run_grouped(case):
         return {'error': 'labels', 'msg': 'state labels of the grouped site are not a bijection'}
     probs = []
     nops = 0
+    # the sites handed in are documented to be left alone (copied when charges != 'same'; only their charges adjusted by
+    # set_common_charges): re-verify every one of them through its own state labels
+    for k, s in enumerate(sites):
+        p = verify_site(s, mirror_of_spec(case['sites'][k]))
+        if p:
+            probs.append('original site %d (%s) after the grouping: %s' % (k, case['sites'][k][0], '; '.join(p[:2])))
     for k, d in enumerate(ch.docs):
         for name in sorted(sites[k].opnames):
             if name == 'Id':
@@ -242,9 +255,383 @@ def run_corr(case):
     return res
 
 
+# ---------------------------------------------------------------------------------------------------------------------
+# basis bookkeeping: "mirrors" = what the documentation says a site IS (doc-basis state labels + operator matrices in the doc
+# basis), maintained next to the real Site objects through every site-transforming call, and re-verified through the
+# state labels (label -> basis index -> matrix elements)
+# ---------------------------------------------------------------------------------------------------------------------
+class Mirror:
+    def __init__(self, labels, ops, simple, tag):
+        self.labels = list(labels)          # primary state label per doc-basis index
+        self.ops = dict(ops)                # name -> (matrix in the doc basis, needs_JW)
+        self.simple = simple                # a predefined site (Site.perm is documented) / a GroupedSite
+        self.tag = tag
+
+    def copy(self, tag=None):
+        return Mirror(self.labels, self.ops, self.simple, tag or self.tag)
+
+
+def mirror_of_spec(spec):
+    cls, kw = spec
+    kw = {k: v for k, v in kw.items() if not k.startswith('_')}
+    doc = orc.doc_site(cls, kw)
+    excl = orc.excluded_ops(cls, kw)
+    ops = {n: (m, n in doc.need_JW) for n, m in doc.ops.items() if n not in excl}
+    return Mirror(doc.labels, ops, True, '%s(%s)' % (cls, ', '.join('%s=%r' % kv for kv in sorted(spec[1].items()))))
+
+
+def grouped_mirror(mirs, labs, tag):
+    import itertools
+    dims = [len(m.labels) for m in mirs]
+    labels = [' '.join(m.labels[t[k]] + '_' + labs[k] for k, m in enumerate(mirs)) for t in itertools.product(*[range(d) for d in dims])]
+    JWs = [m.ops['JW'][0] for m in mirs]
+    Ids = [np.eye(d, dtype=complex) for d in dims]
+    ops = {'Id': (orc.kron_all(Ids), False), 'JW': (orc.kron_all(JWs), True)}
+    for k, m in enumerate(mirs):
+        for n, (M, jw) in m.ops.items():
+            if n == 'Id':
+                continue
+            mats = [(JWs[x] if jw else Ids[x]) if x < k else (M if x == k else Ids[x]) for x in range(len(mirs))]
+            ops[n + labs[k]] = (orc.kron_all(mats), jw)
+    return Mirror(labels, ops, False, tag)
+
+
+def label_index(site, mir):
+    """idx[k] = basis index of `site` of the state the documentation calls mir.labels[k]; (None, problem) when not a bijection"""
+    idx = []
+    for lab in mir.labels:
+        if lab not in site.state_labels:
+            return None, 'state label %r missing' % lab
+        idx.append(int(site.state_labels[lab]))
+    if sorted(idx) != list(range(len(mir.labels))):
+        return None, 'state labels %s -> %s are not a bijection onto the basis' % (mir.labels[:6], idx[:6])
+    return idx, None
+
+
+def verify_site(site, mir):
+    """all that the documentation says about `site`, read through its state labels"""
+    probs = []
+    d = len(mir.labels)
+    if int(site.dim) != d:
+        return ['dimension %d, documented %d' % (site.dim, d)]
+    try:
+        site.test_sanity()
+    except Exception as e:
+        probs.append('test_sanity raised %s: %s' % (type(e).__name__, str(e)[:120]))
+    idx, p = label_index(site, mir)
+    if idx is None:
+        return probs + [p]
+    if mir.simple:
+        perm = [int(x) for x in site.perm]
+        if sorted(perm) != list(range(d)):
+            probs.append('perm %s is not a permutation' % perm)
+        else:
+            for k, lab in enumerate(mir.labels):
+                if perm[idx[k]] != k:
+                    probs.append('perm[state_labels[%r]] = %d, documented basis index %d' % (lab, perm[idx[k]], k))
+                    break
+    names = set(site.opnames)
+    if names != set(mir.ops):
+        probs.append('operator names differ from the expected ones by %s' % sorted(names ^ set(mir.ops))[:6])
+    ix = np.ix_(idx, idx)
+    for n in sorted(names & set(mir.ops)):
+        M, jw = mir.ops[n]
+        try:
+            got = site.get_op(n).to_ndarray()[ix]
+        except Exception as e:
+            probs.append('get_op(%r) raised %s: %s' % (n, type(e).__name__, str(e)[:100]))
+            continue
+        diff = np.abs(got - M)
+        if np.max(diff) > 1e-12:
+            r, c = np.unravel_index(np.argmax(diff), diff.shape)
+            probs.append('<%s|%s|%s> = %s through the state labels, documented value %s'
+                         % (mir.labels[r], n, mir.labels[c], complex(np.round(got[r, c], 12)), complex(np.round(M[r, c], 12))))
+        if bool(site.op_needs_JW(n)) != bool(jw):
+            probs.append('op_needs_JW(%r) = %s, documented %s' % (n, bool(site.op_needs_JW(n)), bool(jw)))
+    for a, b in site.hc_ops.items():
+        if a in mir.ops and b in mir.ops and np.max(np.abs(mir.ops[a][0].conj().T - mir.ops[b][0])) > 1e-12:
+            probs.append('hc_ops pairs %s with %s' % (a, b))
+        if a not in names or b not in names:
+            probs.append('hc_ops mentions %s/%s which is not an operator' % (a, b))
+    return probs
+
+
+def _same_chinfo(sites):
+    return all(s.leg.chinfo == sites[0].leg.chinfo and s.leg.chinfo.names == sites[0].leg.chinfo.names for s in sites)
+
+
+def _unique(objs):
+    out = []
+    for o in objs:
+        if not any(o is x for x in out):
+            out.append(o)
+    return out
+
+
+def run_book(case):
+    """a sequence of site-transforming calls on a pool of sites; after EVERY call all sites of the pool (originals, deep copies,
+    grouped sites) are re-verified against their mirrors.  Steps address the predefined sites (and their deep copies) by index
+    and the grouped sites created so far by ['g', r] (r modulo their number)."""
+    import copy
+    import tenpy.networks.site as S
+    import tenpy.linalg.np_conserved as npc
+    rng = np.random.default_rng(case.get('seed', 0))
+    simple = [[gen.make_site(spec), mirror_of_spec(spec)] for spec in case['sites']]
+    grouped = []
+    out = {'problems': [], 'applied': [], 'verified': 0, 'permuted': False}
+
+    def everything():
+        return simple + grouped
+
+    def tgt(ref):
+        if isinstance(ref, int):
+            return simple[ref]
+        return grouped[ref[1] % len(grouped)] if grouped else None
+
+    def verify_all(si, step):
+        for k, (s, m) in enumerate(everything()):
+            p = verify_site(s, m)
+            out['verified'] += 1
+            if p:
+                out['problems'].append({'step': si, 'op': step, 'site': k, 'tag': m.tag, 'probs': p[:3]})
+
+    verify_all(-1, 'construction')
+    if out['problems']:
+        return out
+    for si, step in enumerate(case['steps']):
+        kind = step[0]
+        status = 'ok'
+        before = [dict(s.state_labels) for s, _ in everything()]
+        try:
+            if kind in ('group', 'group_sites'):
+                idxs, pol, labels = step[1], step[2], step[3]
+                sites = [simple[i][0] for i in idxs]
+                mirs = [simple[i][1] for i in idxs]
+                if pol == 'same' and not _same_chinfo(sites):
+                    try:
+                        S.set_common_charges(_unique(sites), 'same')
+                    except ValueError as e:
+                        if 'different `mod` nature' not in str(e):
+                            raise
+                        status = 'skipped'
+                if status == 'ok' and kind == 'group':
+                    labs = labels or [str(i) for i in range(len(sites))]
+                    gs = S.GroupedSite(sites, labels=labels, charges=pol)
+                    grouped.append([gs, grouped_mirror(mirs, labs, 'GroupedSite(%s, %r)' % ([m.tag for m in mirs], pol))])
+                elif status == 'ok':
+                    n = 2
+                    labs = labels or [str(i) for i in range(n)]
+                    gss = S.group_sites(sites, n=n, labels=labels, charges=pol)
+                    if len(gss) != (len(sites) - 1) // n + 1:
+                        raise AssertionError('group_sites returned %d sites' % len(gss))
+                    for g, gs in enumerate(gss):
+                        mm = mirs[g * n:(g + 1) * n]
+                        grouped.append([gs, grouped_mirror(mm, labs[:len(mm)], 'group_sites(%s, %r)[%d]' % ([m.tag for m in mirs], pol, g))])
+            elif kind == 'set_common':
+                idxs, pol, sort = step[1], step[2], step[3]
+                sites = [simple[i][0] for i in idxs]
+                new = pol
+                if pol in ('sum', 'diff'):
+                    chs = [s.leg.chinfo for s in sites]
+                    if any(c.qnumber < 1 for c in chs) or len(set(int(c.mod[0]) for c in chs)) != 1 or (pol == 'diff' and int(chs[0].mod[0]) != 1):
+                        status = 'skipped'
+                    new = [[(1 if (k == 0 or pol == 'sum') else -1, k, 0) for k in range(len(sites))]]
+                if status == 'ok':
+                    try:
+                        S.set_common_charges(sites, new, sort_charge=bool(sort))
+                    except ValueError as e:
+                        if 'different `mod` nature' not in str(e):
+                            raise
+                        status = 'skipped'
+            elif kind == 'change_charge':
+                site, mir = simple[step[1]]
+                mode = step[2]
+                if mode == 'drop':
+                    site.change_charge(None)
+                elif mode == 'perm':
+                    p = rng.permutation(site.dim)
+                    leg = site.leg
+                    site.change_charge(npc.LegCharge.from_qflat(leg.chinfo, leg.to_qflat()[p], leg.qconj), p)
+                elif mode == 'mod':
+                    old = site.leg
+                    if old.chinfo.qnumber < 1 or any(int(m) != 1 for m in old.chinfo.mod):
+                        status = 'skipped'
+                    else:
+                        N = int(step[3])
+                        chinfo = npc.ChargeInfo([N] * old.chinfo.qnumber, [str(n) + '_mod_%d' % N for n in old.chinfo.names])
+                        site.change_charge(npc.LegCharge.from_qflat(chinfo, np.mod(old.to_qflat(), N), old.qconj))
+                else:
+                    raise ValueError(mode)
+            elif kind == 'deepcopy':
+                site, mir = simple[step[1]]
+                simple.append([copy.deepcopy(site), mir.copy(mir.tag + ' deep copy')])
+            elif kind in ('sort_charge', 'add_op', 'rename_op', 'remove_op'):
+                t = tgt(step[1])
+                if t is None:
+                    status = 'skipped'
+                else:
+                    site, mir = t
+                    cand = sorted(n for n in mir.ops if n not in ('Id', 'JW'))
+                    if kind == 'sort_charge':
+                        site.sort_charge()
+                    elif kind == 'add_op':
+                        allc = sorted(mir.ops)
+                        a, b = allc[step[2] % len(allc)], allc[step[3] % len(allc)]
+                        M = mir.ops[a][0] @ mir.ops[b][0]
+                        jw = bool(mir.ops[a][1]) != bool(mir.ops[b][1])
+                        name = 'A%dx' % si
+                        if step[4] and mir.simple:
+                            # dense matrix in the conserve=None basis, permuted by Site.perm as documented (permute_dense=True)
+                            site.add_op(name, M, need_JW=jw, hc=False, permute_dense=True)
+                        else:
+                            idx, p = label_index(site, mir)
+                            Ms = np.zeros_like(M)
+                            Ms[np.ix_(idx, idx)] = M
+                            site.add_op(name, Ms, need_JW=jw, hc=False, permute_dense=False)
+                        mir.ops[name] = (M, jw)
+                        step = list(step) + ['%s.%s' % (a, b)]
+                    elif not cand:
+                        status = 'skipped'
+                    elif kind == 'rename_op':
+                        old = cand[step[2] % len(cand)]
+                        name = 'R%dx' % si
+                        site.rename_op(old, name)
+                        mir.ops[name] = mir.ops.pop(old)
+                        step = list(step) + [old]
+                    else:
+                        old = cand[step[2] % len(cand)]
+                        site.remove_op(old)
+                        mir.ops.pop(old)
+                        step = list(step) + [old]
+            else:
+                raise ValueError('unknown step ' + str(kind))
+        except Exception as e:
+            out['error'] = {'step': si, 'op': step, 'error': type(e).__name__, 'msg': str(e)[:200], 'tb': traceback.format_exc()[-700:]}
+            out['applied'].append('raised')
+            break
+        out['applied'].append(status)
+        if any(dict(s.state_labels) != b for (s, _), b in zip(everything(), before)):
+            out['permuted'] = True
+        verify_all(si, step)
+        if out['problems']:
+            break
+    out['pool'] = len(simple) + len(grouped)
+    return out
+
+
+# ---------------------------------------------------------------------------------------------------------------------
+# MPS-level consumers of _term_to_ops_list
+# ---------------------------------------------------------------------------------------------------------------------
+def _cl(z):
+    z = complex(z)
+    return [float(z.real), float(z.imag)]
+
+
+def run_mpsterm(case):
+    """every MPS-level consumer of MPS._term_to_ops_list on a random state of a (fermionic) chain, vs the dense operators built with
+    explicit Jordan-Wigner strings; and the (ops, i_min, has_extra_JW) triple of _term_to_ops_list itself as operator names"""
+    import copy
+    from tenpy.networks.mps import MPS
+    from tenpy.networks.terms import TermList
+    rng = np.random.default_rng(case['seed'])
+    ch = gen.Chain(case['sites'])
+    L = len(ch.sites)
+    docs = ch.docs
+    psi, q = gen.random_finite_mps(rng, ch, cplx=True)
+    vec = gen.window_to_doc(ch, gen.dense_window(psi, 0, L), 0).reshape(-1)
+
+    def ev(term):
+        return complex(np.vdot(vec, orc.term_op(docs, term) @ vec))
+
+    def par(term):
+        return sum(1 for a, i in term if docs[i].needs_JW(a)) % 2
+
+    def T(term, off=0):
+        return [(str(a), int(i) + off) for a, i in term]
+
+    nsites = [copy.copy(s) for s in ch.sites]
+    for s in nsites:
+        s.multiply_operators = (lambda ops: list(ops))       # _term_to_ops_list then returns the operator NAMES per site
+    psin = MPS.from_product_state(nsites, [0] * L, unit_cell_width=L)
+    res = []
+    for job in case['jobs']:
+        f = job['f']
+        r = {}
+        try:
+            if f == 'ops_list':
+                term = T(job['term'])
+                ops, imin, extra = psin._term_to_ops_list(term, job['autoJW'], 0, job['jfr'])
+                words = [[str(x) for x in w] for w in ops]
+                r = {'ops': words, 'imin': int(imin), 'extra': bool(extra)}
+                if job['autoJW']:
+                    imax = imin + len(words) - 1
+                    from_right = bool(extra) if job['jfr'] is None else bool(job['jfr'])
+                    left = False if job['jfr'] is None else bool(extra)
+                    full = [['JW'] if left else [] for _ in range(imin)] + words + [[] for _ in range(imax + 1, L)]
+                    got = orc.product_op(docs, full)
+                    want = orc.term_op(docs, term)
+                    if from_right:
+                        want = want @ orc.product_op(docs, [['JW'] if k <= imax else [] for k in range(L)])
+                    r['dense_diff'] = float(np.max(np.abs(got - want)))
+                    r['parity'] = par(term)
+            elif f == 'ev_term':
+                term = T(job['term'])
+                r['parity'] = par(term)
+                r['want'] = [_cl(ev(term))]
+                r['got'] = [_cl(psi.expectation_value_term(term))]
+            elif f == 'terms_sum':
+                terms = [T(t) for t in job['terms']]
+                st = [complex(*z) for z in job['strength']]
+                r['want'] = [_cl(sum(s_ * ev(t) for t, s_ in zip(terms, st)))]
+                r['got'] = [_cl(psi.expectation_value_terms_sum(TermList(terms, st))[0])]
+            elif f == 'tcf_right':
+                tL, tR = T(job['term_L']), T(job['term_R'])
+                r['parity'] = (par(T(tL, job['i_L'])) + par(T(tR, job['j_R'][0]))) % 2
+                r['want'] = [_cl(ev(T(tL, job['i_L']) + T(tR, j))) for j in sorted(job['j_R'])]
+                r['got'] = [_cl(x) for x in psi.term_correlation_function_right(tL, tR, job['i_L'], job['j_R'])]
+            elif f == 'tcf_left':
+                tL, tR = T(job['term_L']), T(job['term_R'])
+                r['parity'] = (par(T(tL, job['i_L'][0])) + par(T(tR, job['j_R']))) % 2
+                r['want'] = [_cl(ev(T(tL, i) + T(tR, job['j_R']))) for i in sorted(job['i_L'], reverse=True)]
+                r['got'] = [_cl(x) for x in psi.term_correlation_function_left(tL, tR, job['i_L'], job['j_R'])]
+            elif f == 'tlcf_right':
+                # documented assumption: pairs of terms with an odd TOTAL number of Jordan-Wigner operators do not contribute
+                tLs, tRs = [T(t) for t in job['terms_L']], [T(t) for t in job['terms_R']]
+                sL, sR = [complex(*z) for z in job['strength_L']], [complex(*z) for z in job['strength_R']]
+                want = []
+                for j in sorted(job['j_R']):
+                    tot = 0.0
+                    for ta, sa in zip(tLs, sL):
+                        for tb, sb in zip(tRs, sR):
+                            a, b = T(ta, job['i_L']), T(tb, j)
+                            if par(a) == par(b):
+                                tot += sa * sb * ev(a + b)
+                    want.append(_cl(tot))
+                r['want'] = want
+                r['got'] = [_cl(x) for x in psi.term_list_correlation_function_right(TermList(tLs, sL), TermList(tRs, sR), job['i_L'], job['j_R'])]
+            elif f == 'apply':
+                term = T(job['term'])
+                r['parity'] = par(term)
+                wv = orc.term_op(docs, term) @ vec
+                r['want_norm'] = float(np.linalg.norm(wv))
+                psi2 = psi.copy()
+                psi2.apply_local_term(term, canonicalize=bool(job.get('canonicalize', True)))
+                v2 = gen.window_to_doc(ch, gen.dense_window(psi2, 0, L), 0).reshape(-1) * psi2.norm
+                r['diff'] = float(np.max(np.abs(v2 - wv)))
+            else:
+                raise KeyError(f)
+        except ValueError as e:
+            r['error'] = 'ValueError: ' + str(e)[:160]
+        except Exception as e:
+            r['error'] = '%s: %s' % (type(e).__name__, str(e)[:160])
+            r['tb'] = traceback.format_exc()[-500:]
+        res.append(r)
+    return res
+
+
 def main():
     payload = json.load(open(sys.argv[1]))
-    f = {'table': run_table, 'terms': run_terms, 'mpo': run_mpo, 'grouped': run_grouped, 'corr': run_corr}[payload['kind']]
+    f = {'table': run_table, 'terms': run_terms, 'mpo': run_mpo, 'grouped': run_grouped, 'corr': run_corr, 'book': run_book, 'mpsterm': run_mpsterm}[payload['kind']]
     res = []
     for c in payload['cases']:
         try:
